@@ -975,6 +975,72 @@ def live_object_stage(ctx):
                 ctx.stat("live-object-never-applicable:" + attribute)
 
 
+def shuffle_inner(rng, d):
+    """the same description with EVERY member list reordered: fields, arguments, enum values, input fields, union
+    members, implemented interfaces, directive arguments and locations (and the definitions themselves)"""
+    n = copy.deepcopy(d)
+    rng.shuffle(n["types"])
+    rng.shuffle(n["directives"])
+    for t in n["types"]:
+        for key in ("fields", "input_fields", "values", "members", "interfaces"):
+            if isinstance(t.get(key), list):
+                rng.shuffle(t[key])
+        for f in t.get("fields", []):
+            if isinstance(f.get("args"), list):
+                rng.shuffle(f["args"])
+    for dd in n["directives"]:
+        rng.shuffle(dd["args"])
+        rng.shuffle(dd["locations"])
+    return n
+
+
+def inner_order_case(ctx, seed):
+    """`diff_perm_deep` on the implementation: the report (as a multiset of class / severity / message) of an edited pair
+    does not change when every member list of BOTH schemas is reordered independently."""
+    import random
+    from py_gql import build_schema
+    rng = random.Random(seed)
+    d = gs.gen_schema(rng, size=rng.randint(1, 3))
+    n = d
+    applied = []
+    for _ in range(rng.randint(1, 3)):
+        r = rng.choice(EDITS)(rng, n)
+        if r is not None:
+            n = r[0]
+            applied.append(r[3])
+    try:
+        ref = diff_live(build_schema(gs.to_sdl(d)), build_schema(gs.to_sdl(n)))
+        d2, n2 = shuffle_inner(rng, d), shuffle_inner(rng, n)
+        got = diff_live(build_schema(gs.to_sdl(d2)), build_schema(gs.to_sdl(n2)))
+    except Exception as e:  # noqa  (combined edits can yield a description build_schema refuses)
+        ctx.stat("inner-order-skipped:" + type(e).__name__)
+        return None
+    ctx.count()
+    ctx.stat("inner-order-case:%d-changes" % min(len(ref), 9))
+    if ref:
+        ctx.nontrivial(("inner-order", gs.to_sdl(d), gs.to_sdl(n)))
+    if ref != got:
+        lost = [c for c in ref if c not in got] + [c for c in got if c not in ref]
+        return [("inner-order-dependent:%s" % (lost[0][0] if lost else "multiplicity"),
+                 "the report changes when the member lists of the two schemas are reordered: %s" % lost[:2])]
+    return []
+
+
+def inner_order_stage(ctx):
+    want = ctx.n(12, 80)
+    got = 0
+    for j in range(want * 4):
+        if got >= want:
+            break
+        seed = 0x0DDE5 + 104729 * j
+        fails = inner_order_case(ctx, seed)
+        if fails is None:
+            continue
+        got += 1
+        for sig, what in fails:
+            ctx.fail(sig, what, {"inner_order_seed": seed, "what": what})
+
+
 def shape(t):
     return "N" if t[0] == "named" else ("L(%s)" % shape(t[1]) if t[0] == "list" else "%s!" % shape(t[1]))
 
@@ -1076,6 +1142,7 @@ def _run(ctx):
     for sig, what in unrooted_operation_case(ctx):
         ctx.fail(sig, what, {"unrooted_operation_case": True, "what": what})
     live_object_stage(ctx)
+    inner_order_stage(ctx)
     hash_order_stage(ctx)
     for e in EDITS:
         got = 0
@@ -1642,6 +1709,8 @@ def replay(ctx, data):
         return not same_response_shape_case(ctx)
     if inp.get("unrooted_operation_case"):
         return not unrooted_operation_case(ctx)
+    if "inner_order_seed" in inp:
+        return not inner_order_case(ctx, inp["inner_order_seed"])
     if "live_object_seed" in inp:
         return not live_object_case(ctx, inp["live_object_seed"], inp["attribute"], inp["prime"])
     if "schema_case_seed" in inp:
